@@ -60,8 +60,25 @@ async def main():
     pending = {}
     marks = {}
 
+    from contextlib import asynccontextmanager
+
+    @asynccontextmanager
+    async def open_client():
+        api = case.get("api", "stdio_client")
+        if api == "transport":
+            from chuk_mcp.transports.stdio.transport import StdioTransport
+            async with StdioTransport(params) as tr:
+                yield await tr.get_streams()
+        elif api == "connect_to_server":
+            from chuk_mcp.client.connection import connect_to_server
+            async with connect_to_server(params) as client:
+                yield client._streams
+        else:
+            async with stdio_client(params) as (r, w):
+                yield r, w
+
     async def body():
-        async with stdio_client(params) as (r, w):
+        async with open_client() as (r, w):
             obs["entered"] = True
             moment = case["moment"]
             if moment != "before_first":
